@@ -1133,3 +1133,255 @@ Proof.
   destruct (vstyle_ok st) eqn:Hok; [|discriminate]. intros H. inversion H; subst.
   exists s. repeat split. apply prop_C18_v_model. exact Hok.
 Qed.
+
+(* ============================================================================================== *)
+(* 8. horizontal rendering: number of rows, position of the branch row, the assert never fires *)
+
+Lemma mid_bounds a b : a + 2 <= b -> a < (a + b) / 2 < b.
+Proof.
+  intros H. split.
+  - apply (Nat.div_le_lower_bound (a + b) 2 (S a)); lia.
+  - apply Nat.div_lt_upper_bound; lia.
+Qed.
+Lemma mid_same a : (a + a) / 2 = a.
+Proof. replace (a + a) with (a * 2) by lia. apply Nat.div_mul. lia. Qed.
+
+Lemma zip_with_length {A B C} (f : A -> B -> C) a : forall b,
+  length (zip_with f a b) = Nat.min (length a) (length b).
+Proof.
+  induction a as [|x a IH]; intros [|y b]; cbn; try reflexivity. rewrite IH. reflexivity.
+Qed.
+
+Lemma set_nth_length {A} i (x : A) l : length (set_nth i x l) = length l.
+Proof. revert i. induction l as [|y l IH]; intros [|i]; cbn; try reflexivity. rewrite IH. reflexivity. Qed.
+
+Lemma hbranch_eq st inter ws d g n a ks :
+  hbranch st inter ws d (T g n a ks) =
+  let t := T g n a ks in
+  let name := if is_hole t then [32; 32]%N else n in
+  let centered := center name (pad_at ws d) in
+  if is_hole t || negb (existsb real ks)
+  then ([hs_branch st :: 32%N :: rstrip_ws centered], 0, true)
+  else hassemble st inter centered (map (hbranch st inter ws (S d)) ks).
+Proof.
+  cbn [hbranch]. cbv zeta.
+  replace ((fix go (l : list tree) : list hblock :=
+              match l with [] => [] | k :: r => hbranch st inter ws (S d) k :: go r end) ks)
+    with (map (hbranch st inter ws (S d)) ks); [reflexivity|].
+  induction ks as [|k r IH]; [reflexivity|]. cbn [map]. rewrite IH. reflexivity.
+Qed.
+
+Definition hrows_kids (ks : list tree) : list nat := map hrows ks.
+Lemma hrows_eq g n a ks :
+  hrows (T g n a ks) =
+  if is_hole (T g n a ks) || negb (existsb (fun k => negb (is_hole k)) ks) then 1
+  else match hrows_kids ks with [1; 1] => 3 | rs => fold_right Nat.add 0 rs end.
+Proof.
+  cbn [hrows].
+  replace ((fix go (l : list tree) : list nat := match l with [] => [] | k :: r => hrows k :: go r end) ks)
+    with (hrows_kids ks); [reflexivity|].
+  unfold hrows_kids. induction ks as [|k r IH]; [reflexivity|]. cbn [map]. rewrite IH. reflexivity.
+Qed.
+
+(* a block: the branch row lies inside; it touches the first or last row only in a one-row block *)
+Definition blk_rows (b : hblock) : nat := length (fst (fst b)).
+Definition blk_mid (b : hblock) : nat := snd (fst b).
+Definition blk_good (b : hblock) : Prop :=
+  snd b = true /\ blk_mid b < blk_rows b /\ (blk_rows b = 1 \/ (0 < blk_mid b /\ blk_mid b < blk_rows b - 1)).
+
+(* branch rows of consecutive blocks stacked from row [off] *)
+Fixpoint bidx (off : nat) (idx nrow : list nat) : list nat :=
+  match idx, nrow with
+  | m :: idx', n :: nrow' => (m + off) :: bidx (off + n) idx' nrow'
+  | _, _ => []
+  end.
+
+Lemma branch_idxs_bidx idx nrow off :
+  length idx = length nrow ->
+  zip_with Nat.add idx (off :: accumulate off nrow) = bidx off idx nrow.
+Proof.
+  revert nrow off. induction idx as [|m idx IH]; intros [|n nrow] off H; try discriminate; [reflexivity|].
+  cbn [accumulate zip_with bidx]. f_equal. cbn in H. apply IH. lia.
+Qed.
+
+(* strictly increasing *)
+Fixpoint incr (l : list nat) : Prop :=
+  match l with
+  | a :: ((b :: _) as r) => a < b /\ incr r
+  | _ => True
+  end.
+
+Lemma bidx_props idx : forall nrow off,
+  length idx = length nrow -> Forall2 (fun m n => m < n) idx nrow ->
+  incr (bidx off idx nrow)
+  /\ (forall x, In x (bidx off idx nrow) -> off <= x < off + sum_list nrow)
+  /\ List.last (bidx off idx nrow) 0 = match idx with [] => 0 | _ => off + sum_list nrow + List.last idx 0 - List.last nrow 0 end
+  /\ hd 0 (bidx off idx nrow) = match idx with [] => 0 | m :: _ => m + off end.
+Proof.
+  induction idx as [|m idx IH]; intros [|n nrow] off HL HF; try discriminate.
+  - cbn. split; [exact I|]. split; [intros x []|]. split; reflexivity.
+  - inversion HF as [|? ? ? ? Hmn HF']; subst. cbn in HL.
+    destruct (IH nrow (off + n) ltac:(lia) HF') as [I1 [I2 [I3 I4]]].
+    cbn [bidx]. split; [|split; [|split]].
+    + destruct idx as [|m' idx']; destruct nrow as [|n' nrow']; try discriminate; cbn [bidx]; [exact I|].
+      split; [|exact I1]. inversion HF'; subst. lia.
+    + intros x [<-|Hx]; cbn [sum_list fold_right].
+      * lia.
+      * apply I2 in Hx. fold (sum_list nrow). lia.
+    + destruct idx as [|m' idx']; destruct nrow as [|n' nrow']; try discriminate.
+      * cbn. lia.
+      * change (List.last (m + off :: bidx (off + n) (m' :: idx') (n' :: nrow')) 0)
+          with (List.last (bidx (off + n) (m' :: idx') (n' :: nrow')) 0).
+        rewrite I3.
+        change (List.last (m :: m' :: idx') 0) with (List.last (m' :: idx') 0).
+        change (List.last (n :: n' :: nrow') 0) with (List.last (n' :: nrow') 0).
+        cbn [sum_list fold_right]. fold (sum_list nrow'). lia.
+    + reflexivity.
+Qed.
+
+(* the connector column between the first and the last branch row *)
+Definition stems_len (ns : list nat) : nat := fold_right (fun n a => S n + a) 0 ns.
+
+Lemma middle_length {A} (stem sub lastc : A) ns :
+  ns <> [] ->
+  length (concat (map (fun n => repeat stem n ++ [sub]) (removelast ns))
+          ++ repeat stem (List.last ns 0) ++ [lastc]) = stems_len ns.
+Proof.
+  induction ns as [|a [|b r] IH]; intros H; [contradiction| |].
+  - cbn. rewrite app_length, repeat_length. cbn. lia.
+  - change (removelast (a :: b :: r)) with (a :: removelast (b :: r)).
+    change (List.last (a :: b :: r) 0) with (List.last (b :: r) 0).
+    cbn [map concat]. rewrite <- app_assoc. rewrite app_length. rewrite IH by discriminate.
+    rewrite app_length, repeat_length. cbn [length stems_len fold_right]. lia.
+Qed.
+
+Lemma stems_telescope B :
+  incr B -> B <> [] ->
+  stems_len (zip_with (fun a b => b - a - 1) B (tl B)) = List.last B 0 - hd 0 B.
+Proof.
+  induction B as [|a [|b r] IH]; intros HI HN; [contradiction|cbn; lia|].
+  destruct HI as [Hab HI].
+  change (tl (a :: b :: r)) with (b :: r).
+  cbn [zip_with stems_len fold_right].
+  change (zip_with (fun a0 b0 : nat => b0 - a0 - 1) (b :: r) r)
+    with (zip_with (fun a0 b0 : nat => b0 - a0 - 1) (b :: r) (tl (b :: r))).
+  fold (stems_len (zip_with (fun a0 b0 : nat => b0 - a0 - 1) (b :: r) (tl (b :: r)))).
+  rewrite IH by (auto; discriminate).
+  change (List.last (a :: b :: r) 0) with (List.last (b :: r) 0). cbn [hd].
+  assert (b <= List.last (b :: r) 0).
+  { clear -HI. revert b HI. induction r as [|c r IHr]; intros b HI; [cbn; lia|].
+    destruct HI as [Hbc HI]. change (List.last (b :: c :: r) 0) with (List.last (c :: r) 0).
+    specialize (IHr c HI). lia. }
+  lia.
+Qed.
+
+Lemma last_map {A B} (f : A -> B) l d : List.last (map f l) (f d) = f (List.last l d).
+Proof. induction l as [|x [|y r] IH]; try reflexivity. exact IH. Qed.
+
+Section HAssemble.
+  Variables (st : hstyle) (inter : bool) (centered : str).
+
+  Lemma hassemble_good sub :
+    sub <> [] -> Forall blk_good sub ->
+    let b := hassemble st inter centered sub in
+    blk_good b /\
+    blk_rows b = match map blk_rows sub with [1; 1] => 3 | rs => fold_right Nat.add 0 rs end.
+  Proof.
+    intros HN HG.
+    destruct sub as [|[[r0 m0] o0] [|[[r1 m1] o1] [|b2 rest]]]; [contradiction| | |].
+    - (* one child *)
+      inversion HG as [|? ? [G1 [G2 G3]] _]; subst. cbn in G1, G2, G3. subst o0.
+      unfold hassemble. cbn [map fst snd forallb hd List.last sum_list fold_right length].
+      rewrite Nat.add_0_r. replace (length r0 + m0 - length r0) with m0 by lia. rewrite mid_same.
+      unfold blk_good, blk_rows, blk_mid. cbn [fst snd].
+      rewrite zip_with_length, !app_length, !repeat_length. cbn [length].
+      rewrite concat_cons, concat_nil, app_nil_r.
+      replace (Nat.min (m0 + (1 + (length r0 - 1 - m0))) (length r0)) with (length r0) by lia.
+      split; [|destruct (length r0) as [|[|?]]; reflexivity]. repeat split; try lia. reflexivity.
+    - (* two children *)
+      inversion HG as [|? ? [G1 [G2 G3]] HG']; subst. inversion HG' as [|? ? [K1 [K2 K3]] _]; subst.
+      cbn in G1, G2, G3, K1, K2, K3. subst o0 o1.
+      unfold hassemble. cbn [map fst snd forallb hd List.last sum_list fold_right length andb].
+      rewrite Nat.add_0_r.
+      replace (length r0 + length r1 + m1 - length r1) with (length r0 + m1) by lia.
+      cbn [concat]. rewrite app_nil_r.
+      destruct (Nat.eqb (length r0 + m1 - m0) 1) eqn:EG.
+      + (* the two children have one row each: a separating row is inserted *)
+        apply Nat.eqb_eq in EG.
+        assert (E0 : length r0 = 1) by lia. assert (E1 : length r1 = 1) by lia.
+        assert (M0 : m0 = 0) by lia. assert (M1 : m1 = 0) by lia. subst m0 m1.
+        unfold blk_good, blk_rows, blk_mid. cbn [fst snd].
+        rewrite app_length, E0, E1. cbn [Nat.add Nat.eqb negb orb andb].
+        change ((0 + 2 - 0) / 2) with 1. cbn [Nat.sub repeat app].
+        cbn [zip_with length]. split; [repeat split; lia|reflexivity].
+      + apply Nat.eqb_neq in EG.
+        assert (HL : m0 + 2 <= length r0 + m1) by lia.
+        destruct (mid_bounds m0 (length r0 + m1) HL) as [B1 B2].
+        set (mid := (m0 + (length r0 + m1)) / 2) in *.
+        unfold blk_good, blk_rows, blk_mid. cbn [fst snd negb orb andb].
+        rewrite zip_with_length, !app_length, !repeat_length, app_length. cbn [length].
+        replace (Nat.min _ _) with (length r0 + length r1) by lia.
+        split; [repeat split; lia|].
+        destruct (length r0) as [|[|?]] eqn:E0; destruct (length r1) as [|[|?]] eqn:E1; try reflexivity; lia.
+    - (* three or more children *)
+      set (sub := (r0, m0, o0) :: (r1, m1, o1) :: b2 :: rest) in *.
+      set (idx := map (fun x : hblock => snd (fst x)) sub).
+      set (nrow := map (fun x : hblock => length (fst (fst x))) sub).
+      assert (HLen : length idx = length nrow) by (unfold idx, nrow; rewrite !map_length; reflexivity).
+      assert (HF : Forall2 (fun m n => m < n) idx nrow).
+      { unfold idx, nrow. clear -HG. induction HG as [|x l [_ [H _]] _ IH]; cbn [map]; constructor; auto. }
+      assert (HOK : forallb (fun x : hblock => snd x) sub = true).
+      { apply forallb_forall. intros x Hx. rewrite Forall_forall in HG. apply (HG x Hx). }
+      destruct (bidx_props idx nrow 0 HLen HF) as [BI [BB [BL BH]]].
+      assert (Hres : length (concat (map (fun x : hblock => fst (fst x)) sub)) = sum_list nrow).
+      { unfold nrow. clear. induction sub as [|x l IH]; [reflexivity|].
+        cbn [map concat sum_list fold_right]. rewrite app_length, IH. reflexivity. }
+      unfold hassemble. fold idx. fold nrow. rewrite HOK.
+      change (match sub with
+              | [_] => ?a | [_; _] => ?b | _ => ?c end) with c.
+      cbv zeta. rewrite (branch_idxs_bidx idx nrow 0 HLen).
+      set (B := bidx 0 idx nrow) in *.
+      assert (HBne : B <> []) by (unfold B, idx, nrow, sub; cbn; discriminate).
+      set (first := hd 0 idx). set (last_ := sum_list nrow + List.last idx 0 - List.last nrow 0).
+      assert (Hfirst : hd 0 B = first) by (rewrite BH; unfold first, idx, sub; cbn; lia).
+      assert (Hlast : List.last B 0 = last_) by (rewrite BL; unfold last_, idx, sub; cbn [map]; lia).
+      assert (Hsum : sum_list nrow = length r0 + (length r1 + (blk_rows b2 + sum_list (map blk_rows rest)))).
+      { unfold nrow, sub. cbn [map sum_list fold_right fst]. unfold blk_rows. reflexivity. }
+      assert (Hm0 : m0 < length r0) by (inversion HG as [|? ? [_ [H _]] _]; exact H).
+      assert (Hr1 : 1 <= length r1).
+      { inversion HG as [|? ? _ HG1]; inversion HG1 as [|? ? [_ [H _]] _]. unfold blk_rows, blk_mid in H. cbn in H. lia. }
+      assert (Hf0 : first = m0) by reflexivity.
+      assert (HlastB : first + 2 <= last_ /\ last_ < sum_list nrow).
+      { assert (Hin : In (List.last B 0) B).
+        { destruct B as [|b0 Bt]; [contradiction|]. apply (@exists_last _ (b0 :: Bt)) in HBne as [l' [z Hz]].
+          rewrite Hz. rewrite last_last. apply in_or_app. right. left. reflexivity. }
+        apply BB in Hin. rewrite Hlast in Hin. split; [|lia].
+        (* the last branch row is at least two rows below the first *)
+        unfold last_, idx, nrow, sub.
+        cbn [map fst snd].
+        change (List.last (m0 :: m1 :: ?x) 0) with (List.last x 0).
+        change (List.last (length r0 :: length r1 :: ?x) 0) with (List.last x 0).
+        cbn [sum_list fold_right].
+        set (tailn := map (fun x : hblock => length (fst (fst x))) (b2 :: rest)).
+        set (taili := map (fun x : hblock => snd (fst x)) (b2 :: rest)).
+        assert (List.last tailn 0 <= fold_right Nat.add 0 tailn).
+        { clear. induction tailn as [|x [|y r] IH]; cbn; try lia.
+          change (List.last (x :: y :: r) 0) with (List.last (y :: r) 0). cbn in IH. lia. }
+        lia. }
+      destruct HlastB as [HL2 HLe].
+      destruct (mid_bounds first last_ HL2) as [M1 M2].
+      set (mid := (first + last_) / 2) in *.
+      unfold blk_good, blk_rows, blk_mid. cbn [fst snd].
+      rewrite zip_with_length.
+      match goal with |- context [if ?c then _ else _] => destruct c end;
+        rewrite ?set_nth_length.
+      all: rewrite !app_length, !repeat_length; cbn [length];
+        rewrite <- app_length;
+        rewrite (middle_length _ _ _ _ ltac:(unfold B, idx, nrow, sub; cbn; discriminate));
+        rewrite (stems_telescope B BI HBne), Hfirst, Hlast, Hres.
+      all: replace (Nat.min _ _) with (sum_list nrow) by lia.
+      all: split; [repeat split; lia|].
+      all: rewrite Hsum; unfold sub; cbn [map]; unfold blk_rows at 1 2; cbn [fst];
+        destruct (length r0) as [|[|?]]; destruct (length r1) as [|[|?]]; cbn [fold_right]; try reflexivity; lia.
+  Qed.
+End HAssemble.
